@@ -139,6 +139,24 @@ pub fn evaluate(ctx: &Ctx, wd: &WorkDir, oracle_kind: &str, case: &Case, lkm: bo
                             }
                         }
                     }
+                    // text output says what the JSON output says: one `[name] (version) description`
+                    // line per warning, in the same order (cross-check against a JSON run of the same
+                    // input in the same environment; only when the text stream is cleanly separable)
+                    if !mode.json && (mode.quiet || mode.out_file) {
+                        let jmode = CliMode { json: true, ..mode.clone() };
+                        let jout = run::run_cli(wd, &ctx.paths, &jmode, env, lkm);
+                        if let Ok(jws) = oracle::check_c21(&jmode, &jout, &ctx.known, &selected_of(mode, lkm, &ctx.known)) {
+                            let want: Vec<String> = jws.iter().map(|w| format!("[{}] ({}) {}", w.name, w.version, w.description)).collect();
+                            let got: Vec<String> = ws.iter().map(|w| format!("[{}] ({}) {}", w.name, w.version, w.description)).collect();
+                            if want != got {
+                                let first = want.iter().zip(got.iter()).position(|(a, b)| a != b).unwrap_or(want.len().min(got.len()));
+                                return Err((
+                                    viol("text_output_differs_from_json", format!("text mode prints {} warning lines, JSON mode {} warnings; first difference at line {first}: text {:?} vs json {:?}", got.len(), want.len(), got.get(first), want.get(first))),
+                                    vec![out, jout],
+                                ));
+                            }
+                        }
+                    }
                     Ok(Eval { outs: vec![out], warnings: vec![ws] })
                 }
                 Err(v) => Err((v, vec![out])),
